@@ -1,4 +1,4 @@
-use std::ops::{BitAnd, BitOr, BitXor, Not, Shl, Shr};
+use std::ops::{BitAnd, BitOr, BitXor, Not};
 
 use crate::{EvalexprError, EvalexprResult, Value};
 
@@ -138,11 +138,13 @@ impl<NumericTypes: EvalexprNumericTypes<Int = Self>> EvalexprInt<NumericTypes> f
     }
 
     fn bit_shift_left(&self, rhs: &Self) -> Self {
-        Shl::shl(*self, *rhs)
+        // `<<` panics in debug builds if the shift amount is outside of `0..64`.
+        (*self).wrapping_shl(*rhs as u32)
     }
 
     fn bit_shift_right(&self, rhs: &Self) -> Self {
-        Shr::shr(*self, *rhs)
+        // `>>` panics in debug builds if the shift amount is outside of `0..64`.
+        (*self).wrapping_shr(*rhs as u32)
     }
 }
 
